@@ -188,3 +188,85 @@ def check_at_points(ctx, alg, iso, cfg, op, keysets, case_id, npoints=3, timeout
                           expected=show_elem({k: exp.get(k, 0) for k in bad[:4]}), **(extra or {}))
             return 'violation', decided
     return status, decided
+
+
+# ---------------------------------------------------------------------------------
+# concrete coefficient values the indeterminates of check_generic can never take: 0, +-1, signed zeros, booleans, complex numbers,
+# numpy scalar types, integers beyond 2^64.  A shortcut keyed on a coefficient *value* or *type* (in the multivector methods, the
+# operator dictionaries or the generated code) is only visible on such operands.
+
+SPECIAL_KINDS = ['units', 'zeros', 'complex', 'npscalar', 'bigint', 'bool', 'exactmix']
+
+
+def special_values(rng, keys, kind):
+    import numpy as np
+    if kind == 'units':
+        pool = [1, -1, 1, -1, 0, 1.0, -1.0]
+    elif kind == 'zeros':
+        pool = [0, 0.0, -0.0, 2, -3, 0.5]
+    elif kind == 'complex':
+        pool = [1 + 2j, -1j, 0.5 - 0.5j, 2 + 0j, 3, -1.5, 1j]
+    elif kind == 'npscalar':
+        pool = [np.int64(3), np.int64(-2), np.float32(0.5), np.float32(-1.25), np.float64(2.0), np.int32(1), np.int64(0), np.float64(-1.0)]
+    elif kind == 'bigint':
+        pool = [2 ** 70 + 3, -(2 ** 65) - 1, 1, -1, 7, 10 ** 20]
+    elif kind == 'bool':
+        pool = [True, False, True, 2, -1]
+    else:
+        # exact types only (mixing them with floats of very different magnitude would test float cancellation, not kingdon)
+        pool = [0, 1, -1, Fr(1, 3), Fr(-2, 1), Fr(5, 2), True, 4, -7]
+    return {k: rng.choice(pool) for k in keys}
+
+
+def _finite(v):
+    try:
+        c = complex(v)
+    except Exception:
+        return True
+    return c == c and abs(c) != float('inf')
+
+
+def check_special_values(ctx, alg, iso, cfg, op, keysets, case_id, timeout=20, kinds=None):
+    """Call `op` on operands holding special concrete values and compare with the reference evaluated on the same values."""
+    from .compare import is_exact
+    rng = ctx.rng
+    kind = rng.choice(kinds or SPECIAL_KINDS)
+    valmaps = [special_values(rng, ks, kind) for ks in keysets]
+    mvs = [value_mv(alg, ks, vm) for ks, vm in zip(keysets, valmaps)]
+    try:
+        refs = [iso.mv_to_ref(m) for m in mvs]
+        exp = ref_apply(iso, op, *refs)
+    except NoReference:
+        return 'noref'
+    except Exception as e:
+        ctx.note_raised(e, 'reference-special-' + kind)      # the reference itself cannot compute with these types: no verdict
+        return 'noref'
+    st, r = ctx.guarded(timeout, call_op, alg, op, *mvs)
+    if st == 'timeout':
+        ctx.count('case_timeouts')
+        return 'timeout'
+    if st == 'exc':
+        ctx.note_raised(r, op + '-special-' + kind)
+        return 'raised'
+    if not hasattr(r, 'keys'):
+        got = {0: r}
+    else:
+        got = iso.to_ref(zip(r.keys(), r.values()))
+    if not all(_finite(v) for v in list(got.values()) + list(exp.values())):
+        ctx.count('special_values_nonfinite_skipped')
+        return 'skip'
+    if kind == 'bigint' and not all(is_exact(v) for v in got.values()):
+        # generated code may legitimately contain float constants (1/2): integers beyond 2^53 then lose digits; only all-integer
+        # results are judged (integer arithmetic must be exact)
+        ctx.count('special_values_bigint_float_result_skipped')
+        return 'skip'
+    ctx.count('special_value_executions')
+    ctx.count('special_values_' + kind)
+    bad = elem_diff(got, exp, tol=1e-6 if kind == 'npscalar' else 1e-9)
+    if bad:
+        ctx.violation('wrong-element on special coefficient values', list(case_id) + ['special', kind, [[repr(vm[k]) for k in ks] for ks, vm in zip(keysets, valmaps)]],
+                      config=cfg, op=op, value_kind=kind,
+                      operands=[{alg.bin2canon[k]: repr(vm[k]) for k in ks} for ks, vm in zip(keysets, valmaps)],
+                      got=show_elem({k: got.get(k) for k in bad[:4]}), expected=show_elem({k: exp.get(k, 0) for k in bad[:4]}))
+        return 'violation'
+    return 'ok'
